@@ -801,15 +801,59 @@ class Lowerer:
 
     def e_CallExpr(self, n):
         callee = n['inner'][0]; args = n['inner'][1:]
+        cc = callee
+        while cc.get('kind') in ('ImplicitCastExpr', 'ParenExpr'): cc = cc['inner'][0]
+        if cc.get('kind') == 'CXXPseudoDestructorExpr':
+            return '((void)0)'        # x.~T() for a scalar T: no effect
         i, ref = self.callee_decl(callee)
         if ref.get('name') in ('abort',):
             return 'OSMT_ABORT()'
         if ref.get('name') == 'free' and len(args) == 1 and self._ghost_buf(args[0]):
             return 'OSMT_GS_FREE(%s)' % self._ghost_buf(args[0])
+        if ref.get('name') in ('all_of', 'any_of', 'none_of') and len(args) == 3 and self._lambda_of(args[2]) is not None:
+            return self._algo_with_lambda(ref['name'], args, n)
         if ref.get('kind') == 'CXXMethodDecl' or (self.tu.byid.get(i, {}).get('kind') == 'CXXMethodDecl'):
             # static member function called without object
             return self._call(self.tu.byid.get(i, ref), None, args, n)
         return self._call(ref, None, args, n)
+
+    # ---- std::all_of / any_of / none_of (first, last, lambda) over pointer iterators: an explicit loop with the lambda body inlined.
+    #      Restrictions (anything else is refused): the iterators are raw pointers, the lambda has one parameter and its body is a single
+    #      `return <expr>;`.  Inlining is exact for `this` / by-reference captures and for by-value captures (nothing runs in between).
+    def _lambda_of(self, a):
+        x = a
+        while isinstance(x, dict) and x.get('kind') in ('MaterializeTemporaryExpr', 'CXXConstructExpr', 'ImplicitCastExpr', 'ExprWithCleanups', 'CXXBindTemporaryExpr', 'CXXFunctionalCastExpr') and len(x.get('inner', [])) == 1:
+            x = x['inner'][0]
+        return x if isinstance(x, dict) and x.get('kind') == 'LambdaExpr' else None
+
+    def _algo_with_lambda(self, algo, args, n):
+        lam = self._lambda_of(args[2])
+        op = None
+        for c in lam.get('inner', []):
+            if c.get('kind') == 'CXXRecordDecl':
+                for m in c.get('inner', []):
+                    if m.get('kind') == 'CXXMethodDecl' and m.get('name') == 'operator()': op = m
+        if op is None: raise Unsupported('lambda without a call operator at ' + self.where(lam))
+        params = [c for c in op.get('inner', []) if c.get('kind') == 'ParmVarDecl']
+        body = [c for c in op.get('inner', []) if c.get('kind') == 'CompoundStmt']
+        if len(params) != 1 or len(body) != 1: raise Unsupported('lambda shape (parameters/body) at ' + self.where(lam))
+        stmts = body[0].get('inner', [])
+        if len(stmts) != 1 or stmts[0].get('kind') != 'ReturnStmt' or not stmts[0].get('inner'): raise Unsupported('lambda body is not a single return at ' + self.where(lam))
+        it_t = self.ctype(args[0]['type'])
+        if not it_t.endswith('*'): raise Unsupported('std::%s over non-pointer iterators (%s)' % (algo, it_t))
+        pd = params[0]
+        pname = self._local(pd)
+        pt = pd['type']
+        isref = self._strip_cv(pt['qualType']).endswith('&')
+        self._tmpn += 1
+        itn = '__it%d' % self._tmpn; rn = '__r%d' % self._tmpn; en = '__e%d' % self._tmpn
+        first = self.expr(args[0]); last = self.expr(args[1])
+        pdecl = '%s %s = %s;' % (self.ctype(pt), pname, itn if isref else '(*%s)' % itn)
+        cond = self.expr(stmts[0]['inner'][0])
+        init, test = {'all_of': ('1', '!(%s)' % cond), 'any_of': ('0', cond), 'none_of': ('1', cond)}[algo]
+        flip = {'all_of': '0', 'any_of': '1', 'none_of': '0'}[algo]
+        return '({ t_bool %s = %s; %s %s = %s; %s %s = %s; for (; %s != %s; ++%s) { %s if (%s) { %s = %s; break; } } %s; })' % (
+            rn, init, it_t, itn, first, it_t, en, last, itn, en, itn, pdecl, test, rn, flip, rn)
 
     def e_CXXMemberCallExpr(self, n):
         callee = n['inner'][0]; args = n['inner'][1:]
